@@ -238,3 +238,27 @@ package cpumem
 //@        && nodeResourceInfo.Capacity == atcall(Plugin.getNodeResourceInfo, res(Plugin.getNodeResourceInfo, 0).Capacity)
 //@   # the write happens exactly when differences were found
 //@   ensures[C15.fix-iff] res(Plugin.getNodeResourceInfo, 3) == nil ==> (called(Plugin.doSetNodeResourceInfo) == ((len(res(Plugin.getNodeResourceInfo, 2)) != 0) ? 1 : 0))
+
+//@ # ---------- realloc (C33) ----------
+//@ # partial contract: what is handed to the planner and what is taken from it (the numeric range preconditions of
+//@ # Sub / Validate / DeepCopy and run-time safety are not claimed here)
+//@ func (Plugin) CalculateRealloc
+//@   partial
+//@   # keeping the binding means: bound exactly when the workload holds cores
+//@   assert[C33.keep-bind] before call Validate#1: (req.KeepCPUBind ==> req.CPUBind == (card(originResource.CPUMap) > 0)) && newReq.CPUBind == req.CPUBind
+//@   # the request planned is the old amount plus the requested change
+//@   assert[C33.same-request] before call Validate#1: newReq.CPURequest == req.CPURequest + originResource.CPURequest && newReq.CPULimit == req.CPULimit + originResource.CPULimit
+//@        && newReq.MemRequest == req.MemRequest + originResource.MemoryRequest && newReq.MemLimit == req.MemLimit + originResource.MemoryLimit
+//@   # the planner gets the node record, the workload's old cores (for affinity), the scheduler settings and that request
+//@   assert[C33.planner-args] before call GetCPUPlans#1: arg0 == nodeResourceInfo && arg1 == originResource.CPUMap && arg2 == p.config.Scheduler.ShareBase
+//@        && arg3 == p.config.Scheduler.MaxShare && arg4 == newReq && nodeResourceInfo == res(Plugin.doGetNodeResourceInfo, 0)
+//@   # ... after the workload's own cores, memory and NUMA memory have been returned to the pool
+//@   assert[C33.putback] before call GetCPUPlans#1:
+//@        (forall c string :: nodeResourceInfo.Usage.CPUMap[c] == atcall(Plugin.doGetNodeResourceInfo, res(Plugin.doGetNodeResourceInfo, 0).Usage.CPUMap[c]) - originResource.CPUMap[c])
+//@        && (forall m string :: nodeResourceInfo.Usage.NUMAMemory[m] == atcall(Plugin.doGetNodeResourceInfo, res(Plugin.doGetNodeResourceInfo, 0).Usage.NUMAMemory[m]) - originResource.NUMAMemory[m])
+//@        && nodeResourceInfo.Usage.Memory == atcall(Plugin.doGetNodeResourceInfo, res(Plugin.doGetNodeResourceInfo, 0).Usage.Memory) - originResource.MemoryRequest
+//@        && nodeResourceInfo.Capacity == atcall(Plugin.doGetNodeResourceInfo, res(Plugin.doGetNodeResourceInfo, 0).Capacity)
+//@   # the first plan is the one taken, for the engine parameters as well as for the recorded resources
+//@   assert[C33.first-plan] before call Decode#1: req.CPUBind ==> let plans == res(schedule.GetCPUPlans) :: len(plans) >= 1
+//@        && cpuMap == plans[0].CPUMap && numaNodeID == plans[0].NUMANode && engineParams.CPUMap == cpuMap && engineParams.NUMANode == numaNodeID
+//@        && newResource.CPUMap == cpuMap && newResource.NUMANode == numaNodeID
